@@ -752,7 +752,23 @@ def _legacy(chk, repo):
                 raise AnchorError(f"{ci.qual}.{mname}: neither a chain loop nor a delegation to _sample")
             if len(loops) != 1:
                 raise AnchorError(f"{ci.qual}.{mname}: {len(loops)} top-level loops")
-            _legacy_loop(chk, repo, ci, fn, loops[0])
+            # as written, then with single-use temporaries (a named column index, a named bound) substituted
+            from .common import best_of, canon_fn
+            def cands(_ci=ci, _fn=fn):
+                yield _fn
+                try:
+                    yield canon_fn(repo, _ci, _fn, 4)
+                except AnchorError:
+                    raise
+                except Exception:
+                    return
+
+            def on_view(t, v, _ci=ci):
+                lps = [n for n in v.body if isinstance(n, ast.For)]
+                if len(lps) != 1:
+                    raise AnchorError(f"{_ci.qual}.{v.name}: {len(lps)} top-level loops in view")
+                _legacy_loop(t, repo, _ci, v, lps[0])
+            best_of(chk, cands(), on_view)
             loops_checked += 1
     if loops_checked < 11:
         raise AnchorError(f"{loops_checked} legacy chain loops found, 11 confirmed by hand")
@@ -868,8 +884,9 @@ def _legacy_r8(chk, repo, ci, fn, loop, chain, bound):
             problems.append(f"{chain} is allocated with {unparse(shp)} columns but the loop runs to {bound}")
     bdef = [n for s in pre for n in ast.walk(s) if isinstance(n, ast.Assign) and path_of(n.targets[0]) == bound]
     params = func_params(fn)[1:3]
-    if not bdef or not (isinstance(bdef[0].value, ast.BinOp) and isinstance(bdef[0].value.op, ast.Add)
-                        and {path_of(bdef[0].value.left), path_of(bdef[0].value.right)} == set(params)):
+    direct_sum = len(params) == 2 and bound.replace(" ", "") in (f"{params[0]}+{params[1]}", f"{params[1]}+{params[0]}")     # the bound written out (substituted view)
+    if not direct_sum and (not bdef or not (isinstance(bdef[0].value, ast.BinOp) and isinstance(bdef[0].value.op, ast.Add)
+                                            and {path_of(bdef[0].value.left), path_of(bdef[0].value.right)} == set(params))):
         problems.append(f"number of chain columns {bound} is not {params[0]} + {params[1]}")
     # burn-in slice after the loop
     nb = params[1] if len(params) > 1 else "Nb"
@@ -882,10 +899,22 @@ def _legacy_r8(chk, repo, ci, fn, loop, chain, bound):
                 and s.elts[0].upper is None and isinstance(s.elts[1], ast.Slice) and path_of(s.elts[1].lower) == nb \
                 and s.elts[1].upper is None and s.elts[1].step is None:
             okslice = True
-    if not okslice:
-        problems.append(f"burn-in is not removed by {chain} = {chain}[:, {nb}:]")
     rets = [n for n in fn.body if isinstance(n, ast.Return)]
-    if not rets or not (path_of(rets[-1].value) == chain or (isinstance(rets[-1].value, ast.Tuple) and path_of(rets[-1].value.elts[0]) == chain)):
+    first_ret = None
+    if rets:
+        first_ret = rets[-1].value.elts[0] if isinstance(rets[-1].value, ast.Tuple) and rets[-1].value.elts else rets[-1].value
+
+    def is_burn_slice(e):
+        if not (isinstance(e, ast.Subscript) and path_of(e.value) == chain):
+            return False
+        s_ = e.slice
+        return isinstance(s_, ast.Tuple) and len(s_.elts) == 2 and isinstance(s_.elts[0], ast.Slice) and s_.elts[0].lower is None \
+            and s_.elts[0].upper is None and isinstance(s_.elts[1], ast.Slice) and path_of(s_.elts[1].lower) == nb \
+            and s_.elts[1].upper is None and s_.elts[1].step is None
+    folded = first_ret is not None and is_burn_slice(first_ret)          # `return chain[:, Nb:], ...` (slice folded into the return)
+    if not okslice and not folded:
+        problems.append(f"burn-in is not removed by {chain} = {chain}[:, {nb}:]")
+    if not rets or not (path_of(first_ret) == chain or folded):
         problems.append(f"the chain {chain} is not the (first) returned value")
     chk.add("C14-R8", inst, not problems, site(repo, fn), f"{chain}[:,0]=x0, {bound}={'+'.join(params)} columns, burn-in slice [:, {nb}:]",
             "; ".join(problems), fn)
